@@ -9,6 +9,7 @@ import numpy as np
 
 from vf import gen, refmdp, shipped
 
+SIBLING_EVERY = 2      # every n-th case is followed by a same-shape sibling problem/solver in the same process (vf/worker.py)
 LEVEL = "exploration"
 RULE = ("cases = generated tabular MDPs (8 structure classes x vector/scalar interface "
         "classes x listing order x 0-d/1-element probabilities) and reduced shipped problems, "
